@@ -74,17 +74,18 @@ impl OutcomeTestGenerator for Outcome {
                             }
                             DiffLine::UnexpectedLines { lines } => {
                                 for (_, line) in lines {
-                                    let suffix = if line.ends_with(b"\n") {
+                                    let expectation = self
+                                        .escaping
+                                        .escaped_expectation((&line[..]).trim_newlines());
+                                    // escaped expectations ignore the tailing newline already
+                                    let suffix = if line.ends_with(b"\n")
+                                        || expectation.ends_with(" (escaped)")
+                                    {
                                         ""
                                     } else {
                                         " (no-eol)"
                                     };
-                                    let line = formatln!(
-                                        "{}{}",
-                                        self.escaping
-                                            .escaped_expectation((&line[..]).trim_newlines()),
-                                        suffix
-                                    );
+                                    let line = formatln!("{}{}", expectation, suffix);
                                     generated.push_str(&line)
                                 }
                             }
